@@ -206,6 +206,25 @@ def roundtrip_store(store, how: str):
         shutil.rmtree(d, ignore_errors=True)
 
 
+def interfere(obj) -> None:
+    """Other uses of the adapter in the same process, before the round trip under test: every combination of the mode
+    parameters with explicitly passed encoder / decoder classes.  Serialising and reading are functions of their arguments;
+    none of these calls may change what a later ordinary call does (the property holds after every history of calls)."""
+    from basyx.aas import model
+    from basyx.aas.adapter import json as J
+    store = model.DictObjectStore([obj]) if isinstance(obj, model.Identifiable) else model.DictObjectStore()
+    for stripped in (True, False):
+        for enc in (None, J.AASToJsonEncoder, J.StrippedAASToJsonEncoder):
+            doc = J.object_store_to_json(store, stripped=stripped, encoder=enc)
+            buf = io.StringIO(); J.write_aas_json_file(buf, store, stripped=stripped, encoder=enc)
+    json.dumps(obj, cls=J.StrippedAASToJsonEncoder)
+    full = J.object_store_to_json(store)
+    for stripped in (True, False):
+        for failsafe in (True, False):
+            for dec in (None, J.AASFromJsonDecoder, J.StrictAASFromJsonDecoder, J.StrippedAASFromJsonDecoder, J.StrictStrippedAASFromJsonDecoder):
+                J.read_aas_json_file(io.StringIO(full), failsafe=failsafe, stripped=stripped, decoder=dec)
+
+
 def check_object(obj, case: dict, how: str = "text") -> Optional[C.Failing]:
     """canon(read(write(x))) == canon(x), through a store document and through the encoder/decoder classes."""
     _quiet()
@@ -214,6 +233,8 @@ def check_object(obj, case: dict, how: str = "text") -> Optional[C.Failing]:
     from vf import canon
     c1 = canon.canon(obj)
     try:
+        if case.get("mix", True):
+            interfere(obj)
         if not isinstance(obj, model.Identifiable):
             o3 = json.loads(json.dumps(obj, cls=AASToJsonEncoder), cls=StrictAASFromJsonDecoder)
             d = canon.diff(c1, canon.canon(o3)) if not isinstance(o3, dict) else "decoder returned a dict"
